@@ -213,6 +213,34 @@ Lemma build_buffer i c :
   build_body sniff i = OOk (Some (bi_media i)) SOtherBuf (DBytes c).
 Proof. intros H1 H2. unfold build_body. now rewrite H1, H2. Qed.
 
+(* a reader handed over after the caller consumed a prefix: the body is the unread rest, nothing of the prefix *)
+Lemma reader_at_unread (consumed rest : bytes) : reader_at (consumed ++ rest) (length consumed) = rest.
+Proof.
+  unfold reader_at. induction consumed as [|c consumed IH]; [reflexivity|]. cbn [app length skipn]. exact IH.
+Qed.
+
+Lemma build_reader_unread i consumed rest :
+  has_form i = false ->
+  (bi_payload i = PReader (reader_at (consumed ++ rest) (length consumed)) \/
+   bi_payload i = PReadCloser (reader_at (consumed ++ rest) (length consumed))) ->
+  build_body sniff i = OOk (Some (bi_media i)) SStream (DBytes rest).
+Proof.
+  intros H1 H2. rewrite reader_at_unread in H2. exact (build_reader i rest H1 H2).
+Qed.
+
+(* a file whose source came out of runtime.NamedReader is sent under the name asked for, whatever was wrapped *)
+Lemma named_reader_name name inner : source_name (named_reader name inner) = name.
+Proof. reflexivity. Qed.
+
+Lemma file_part_named fn name inner chunks declared :
+  p_disp (file_part sniff fn (mkfile (source_name (named_reader name inner)) chunks declared)) = disp_file fn name.
+Proof. reflexivity. Qed.
+
+Lemma named_reader_file_name fn name inner chunks declared :
+  source_name (named_reader name inner) = name /\
+  p_disp (file_part sniff fn (mkfile (source_name (named_reader name inner)) chunks declared)) = disp_file fn name.
+Proof. split; reflexivity. Qed.
+
 Lemma build_nil i :
   has_form i = false -> bi_payload i = PNil -> build_body sniff i = OOk (bi_preset_ct i) SNil DNone.
 Proof. intros H1 H2. unfold build_body. now rewrite H1, H2. Qed.
@@ -255,6 +283,22 @@ Proof.
     destruct (bi_producer i) as [[b|]|]; intros H; inversion H; subst; reflexivity.
 Qed.
 End Parts.
+
+(* NamedReader has to wrap always: a variant that returns an inner which already has a name gives a file
+   renamed through it (an os.File uploaded under another name, a NamedReader result wrapped again) the
+   inner name *)
+Lemma named_reader_keeping_refuted :
+  exists name inner, source_has_name inner = true /\ source_name (named_reader_keeping name inner) <> name.
+Proof. exists [110], (FOwn [111]). split; [reflexivity|discriminate]. Qed.
+
+(* an auth writer asking for the body of a reader handed over at a position: the unread rest, every time *)
+Lemma auth_sees_unread_rest k consumed rest :
+  auth_run k SStream (reader_at (consumed ++ rest) (length consumed)) = (repeat rest k, rest).
+Proof.
+  assert (E : reader_at (consumed ++ rest) (length consumed) = rest).
+  { unfold reader_at. induction consumed as [|c consumed IH]; [reflexivity|]. exact IH. }
+  rewrite E. exact (auth_sees_sent_bytes k SStream rest).
+Qed.
 
 (* the one place where the header does not describe the body (F-C11-4, pinned by the repository's tests) *)
 Lemma header_files_under_urlencoded_refuted :
